@@ -230,8 +230,57 @@ func c04Case(ctx *Ctx, s1, s2 *TableSpec, cfg1, cfg2 IngestCfg, tags ...string) 
 	ctx.Emit("diff", c04Input{T1: d1, T2: d2, S1: s1, S2: s2}, res, nt, tags...)
 }
 
+// windowShapes: two keyed tables of several blocks whose block boundaries relate in varied ways
+// (one block of a table spanning several of the other's, nested tails, dense prefix + sparse tail).
+func windowShapes(r *rand.Rand) (*TableSpec, *TableSpec) {
+	k := 520 + r.Intn(700)
+	mk := func(keep func(i int) bool, mod func(i int) bool) *TableSpec {
+		t := &TableSpec{Columns: []string{"k", "v"}, PK: []string{"k"}}
+		for _, i := range r.Perm(k) {
+			if !keep(i) {
+				continue
+			}
+			v := "x"
+			if mod(i) {
+				v = "y"
+			}
+			t.Rows = append(t.Rows, []string{fmt.Sprintf("%05d", i), v})
+		}
+		return t
+	}
+	never := func(int) bool { return false }
+	all := func(int) bool { return true }
+	t1 := mk(all, never)
+	var t2 *TableSpec
+	m := []int{2, 3, 5, 7, 11}[r.Intn(5)]
+	cut := r.Intn(k)
+	someMod := func(i int) bool { return i%97 == 13 }
+	switch r.Intn(5) {
+	case 0: // sparse subset
+		t2 = mk(func(i int) bool { return i%m == 0 }, someMod)
+	case 1: // dense prefix, sparse tail
+		t2 = mk(func(i int) bool { return i < cut || i%m == 0 }, someMod)
+	case 2: // sparse prefix, dense tail
+		t2 = mk(func(i int) bool { return i >= cut || i%m == 0 }, someMod)
+	case 3: // a nested tail
+		t2 = mk(func(i int) bool { return i >= k-(100+r.Intn(300)) }, someMod)
+	default: // a gap in the middle
+		w := 100 + r.Intn(300)
+		t2 = mk(func(i int) bool { return i < cut || i >= cut+w }, someMod)
+	}
+	if r.Intn(2) == 0 {
+		return t2, t1
+	}
+	return t1, t2
+}
+
 func runC04(ctx *Ctx) {
 	r := ctx.R
+	if r.Intn(4) == 0 {
+		s1, s2 := windowShapes(r)
+		c04Case(ctx, s1, s2, IngestCfg{}, IngestCfg{}, "mode=window-shapes")
+		return
+	}
 	maxBlocks := 2
 	if ctx.Thorough() {
 		maxBlocks = 4
